@@ -6,11 +6,11 @@ PROP = "C12"
 PAR_OK = True
 LEVEL = "proof"
 RULE = ("random multifurcating trees (3..12 tips, rooted/unrooted, parent slot at random positions, inner names/comments "
-        "sometimes), tip states over 1..4 states (plain and exotic state names to exercise sort.Strings, extra map entries "
+        "sometimes), inner nodes / the root named like a tip, like an absent table entry or freshly, with extra table entries (or sequences) for non-tip names; wide polytomies with 255..1000 tip children and skewed states; tip states over 1..4 states (plain and exotic state names to exercise sort.Strings, extra map entries "
         "for absent tips, rarely a missing tip; 15%: duplicate inner names and inner names that look like node ids), 30% of the cases with --random-resolve and a recorded rand stream, algorithms downpass/deltran/acctran (+none for the correspondence), every "
         "case also run on the same tree re-rooted at a random inner node (the judge checks the second tree with "
         "Model.Reroot.reroot); sequence variant: alignments of 1..6 sites, unambiguous ACGT(-) in upper, lower or mixed case with the character variant "
-        "run site by site, or with IUPAC ambiguity codes at tips; non-trivial = at least one step; distinct = distinct case text")
+        "run site by site, or with IUPAC ambiguity codes, gaps and (judged by correspondence only) characters outside the IUPAC table at tips; non-trivial = at least one step; distinct = distinct case text")
 TRUSTED = ["tree built through NewNode/NewEdge + verif hooks (exact neighbour order); dump through Neigh()/Edges()/Comments()",
            "alignment read by goalign's fasta parser from the text the worker writes (as cmd/asr.go does)"]
 ASSUMPTIONS = ["math/rand: Intn transcribed in Model/Rand.v; the recorded Int63 stream is what the code under test consumes "
@@ -74,6 +74,65 @@ def dup_inner_names(t, rng):
         if len(node["slots"]) >= 2 and rng.random() < 0.6:
             node["name"] = rng.choice(pool)
 
+def spice_inner_names(t, rng, table_keys):
+    """inner nodes (and the root) named like a tip, like an absent entry of the table, or freshly; returns the
+    fresh/absent names used, so that the caller may add table entries for them (extra non-tip entries are legal)"""
+    tips = leaves(t)
+    used = []
+    k = 0
+    for node in preorder(t):
+        if len(node["slots"]) >= 2 and rng.random() < 0.5:
+            r = rng.random()
+            if r < 0.45:
+                node["name"] = rng.choice(tips)            # same key as an observed tip
+            elif r < 0.6:
+                node["name"] = "absent"
+                used.append("absent")
+            else:
+                k += 1
+                node["name"] = "I%d" % k
+                used.append(node["name"])
+    return used
+
+def tipnode(n):
+    return {"name": n, "coms": [], "slots": [None]}
+
+def noedge():
+    return {"len": None, "sup": None, "pv": None, "coms": []}
+
+def wide_tree(rng, n):
+    """a polytomy with n tip children: the root itself, or a child of a small root"""
+    tips = [tipnode("w%d" % i) for i in range(n)]
+    if rng.random() < 0.5:
+        return {"name": "", "coms": [], "slots": [(noedge(), c) for c in tips]}
+    poly = {"name": "", "coms": [], "slots": [None] + [(noedge(), c) for c in tips]}
+    pos = rng.randrange(0, len(poly["slots"]))
+    poly["slots"].remove(None); poly["slots"].insert(pos, None)
+    others = [tipnode("v%d" % i) for i in range(rng.choice([1, 2, 3]))]
+    kids = [(noedge(), c) for c in others]
+    kids.insert(rng.randrange(0, len(kids) + 1), (noedge(), poly))
+    return {"name": "", "coms": [], "slots": kids}
+
+def gen_wide(rng, tier):
+    """polytomies whose per-state neighbour counts pass 255/256/257 (and more)"""
+    sizes = {"quick": [255, 256, 257, 300], "thorough": [255, 256, 257, 258, 300, 511, 512, 513, 1000], "search": [256, 257, 300, 600]}[tier]
+    out = []
+    for n in sizes:
+        for rep in range(2 if tier != "thorough" else 3):
+            t = wide_tree(rng, n)
+            tips = leaves(t)
+            sts = rng.choice([["A", "B"], ["A", "B", "C"], ["x", "y"]])
+            minority = rng.choice([0, 1, 2, 40, n - 256 if n > 256 else 3, n // 2])
+            minority = max(0, min(minority, len(tips) - 1))
+            rng.shuffle(tips)
+            states = [[tp, sts[0]] for tp in tips[minority:]] + [[tp, rng.choice(sts[1:])] for tp in tips[:minority]]
+            rng.shuffle(states)
+            algo = rng.choice(["downpass", "deltran", "acctran", "none"]) if n <= 300 else rng.choice(["acctran", "none"])
+            case = {"kind": Sym("acr"), "tree": T(t), "states": states, "algo": Sym(algo)}
+            out.append({"sx": sx(case), "meta": {"kind": "acr", "algo": algo, "ntips": len(tips), "k": len(sts), "wide": n,
+                                                  "rr": False, "dupnames": False, "rooted": False, "rerooted": False}})
+    return out
+
 def inner_indexes(t):
     return [i for i, n in enumerate(preorder(t)) if len(n["slots"]) >= 2]
 
@@ -94,6 +153,7 @@ def gen(rng, tier):
         pool = rng.choice(STATE_POOLS)
         k = rng.choice([1, 2, 2, 3, 3, 4])
         sts = pool[:k]
+        extra_keys = spice_inner_names(t, rng, tips) if (not dup and rng.random() < 0.25) else None
         # clustered states give long runs, uniform ones many changes
         if rng.random() < 0.5:
             states = [(n, rng.choice(sts)) for n in tips]
@@ -108,6 +168,12 @@ def gen(rng, tier):
             states.append(("absent", rng.choice(pool)))      # a state that may not occur in the tree
         elif r < 0.11:
             del states[rng.randrange(len(states))]           # missing tip: error
+        if extra_keys:
+            have = set(a for a, _ in states)
+            for key in extra_keys:
+                if key not in have and rng.random() < 0.7:
+                    states.append((key, rng.choice(pool)))      # a table entry for a name that is not a tip
+                    have.add(key)
         rng.shuffle(states)
         algo = rng.choice(["downpass", "deltran", "acctran", "downpass", "deltran", "acctran", "none"])
         case = {"kind": Sym("acr"), "tree": T(t), "states": [[a, b] for a, b in states], "algo": Sym(algo)}
@@ -122,8 +188,9 @@ def gen(rng, tier):
             case["rr"] = True
             case["seed"] = rng.randrange(1, 2**31)
             case["nraw"] = 4 * n_nodes(t) + 16
-        out.append({"sx": sx(case), "meta": {"kind": "acr", "algo": algo, "ntips": len(tips), "k": k, "rr": rr, "dupnames": dup,
+        out.append({"sx": sx(case), "meta": {"kind": "acr", "algo": algo, "ntips": len(tips), "k": k, "rr": rr, "dupnames": dup, "innerkeys": extra_keys is not None,
                                               "rooted": len(t["slots"]) == 2, "rerooted": "tree2" in case}})
+    out += gen_wide(rng, tier)
     for _ in range(n_asr):
         t = g.tree(lo=3, hi=10, maxdeg=rng.choice([2, 3, 4, 5]), lenmode="mixed", supmode="mixed",
                    inner_names=rng.random() < 0.3, comments=rng.random() < 0.2, up_random=rng.random() < 0.5)
@@ -135,6 +202,13 @@ def gen(rng, tier):
         else:
             chars = rng.choice(["ACGT", "ACGT", "AC", "ACGT-"])
         # lower-case and mixed-case alignments (the IUPAC table is looked up case-insensitively)
+        unknown = rng.random() < 0.15
+        if unknown:
+            # characters outside the IUPAC table (no state in the code): outside the property, judged by correspondence
+            amb = True
+            chars = chars + "X.?*" + ("-N" if rng.random() < 0.5 else "")
+        elif rng.random() < 0.3:
+            chars = chars + "-" * 3 + ("N" if amb else "")
         case_mode = rng.choice(["upper", "upper", "lower", "mixed"])
         if case_mode == "lower":
             chars = chars.lower()
@@ -146,6 +220,11 @@ def gen(rng, tier):
             for n in tips:
                 seqs[n][j] = rng.choice(sub)
         aln = [[n, "".join(seqs[n])] for n in tips]
+        if rng.random() < 0.2:
+            # inner nodes named like sequences; extra sequences for names that are not tips
+            for key in set(spice_inner_names(t, rng, tips)):
+                if rng.random() < 0.7:
+                    aln.append([key, "".join(rng.choice(chars) for _ in range(L))])
         rng.shuffle(aln)
         if rng.random() < 0.03:
             del aln[rng.randrange(len(aln))]
@@ -157,5 +236,5 @@ def gen(rng, tier):
             case["seed"] = rng.randrange(1, 2**31)
             case["nraw"] = 4 * n_nodes(t) * L + 16
         out.append({"sx": sx(case), "meta": {"kind": "asr", "algo": algo, "ntips": len(tips), "sites": L, "rr": rr,
-                                              "ambiguous": amb, "case": case_mode, "rooted": len(t["slots"]) == 2}})
+                                              "ambiguous": amb, "case": case_mode, "unknown": unknown, "rooted": len(t["slots"]) == 2}})
     return out
